@@ -91,6 +91,24 @@ def _t_dotted(a=0): return ('result', ['_dotted', a], ('ns._dotted', (a,), {}))
 def _t_cowrapped(a, b=0): return ('result', ['cowrapped', a, b], ('cowrapped', (a, b), {}))
 
 
+def _t_js_draft4(n):
+    if not (isinstance(n, int) and not isinstance(n, bool)):
+        return ('invalid', None, None)
+    return ('result', ['js_draft4', n], ('js_draft4', (n,), {}))
+
+
+def _t_window(items, start=0, stop=3, step=1): return ('result', ['window', items, start, stop, step], ('window', (items, start, stop, step), {}))
+
+
+def _t_mutate(lst, d=None):
+    out_l = lst + ['seen'] if isinstance(lst, list) else lst
+    out_d = dict(d, **({} if 'seen' in d else {'seen': True})) if isinstance(d, dict) else d
+    return ('result', ['mutate', out_l, out_d], ('mutate', (lst, d), {}))
+
+
+def _t_broken(a=0): return ('internal', None, None)
+
+
 def _t_byid(id, extra=0): return ('result', ['byid', id, extra], ('byid', (id, extra), {}))
 def _t_wrapped(a, b=0): return ('result', ['wrapped', a, b], ('wrapped', (a, b), {}))
 def _t_vm(a, b=0): return ('result', ['vm', a, b], ('view.vm', (a, b), {}))
@@ -100,7 +118,7 @@ TWINS = {
     'ok': _t_ok, 'noargs': _t_noargs, 'echo': _t_echo, 'kwonly': _t_kwonly, 'rpcerr': _t_rpcerr,
     'typed': _t_typed, 'js_checked': _t_js_checked, 'js_loose': _t_js_loose, 'slowfail': _t_slowfail, 'byid': _t_byid, 'wrapped': _t_wrapped, 'whoami': _t_whoami, 'ctxp': _t_ctxp, 'slow': _t_slow, 'fac1': _t_fac1, 'fac2': _t_fac2, 'boom': _t_boom, 'ctxm': _t_ctxm, 'view.vm': _t_vm,
     'typedctor': _t_typedctor, 'raiselib': _t_raiselib, 'pd_pos': _t_pd_pos, '_under': _t_under, 'ns._dotted': _t_dotted,
-    'cowrapped': _t_cowrapped,
+    'cowrapped': _t_cowrapped, 'js_draft4': _t_js_draft4, 'window': _t_window, 'mutate': _t_mutate, 'broken.vm': _t_broken,
 }
 
 
@@ -167,11 +185,15 @@ def element(req: Dict[str, Any], exp: Expected, ctx_token: Any) -> Tuple[Any, st
             resp = err(id_, -32602)
         else:
             outcome, value, call = twin(*bound.args, **bound.kwargs)
-            if outcome != 'invalid':
+            if outcome not in ('invalid', 'internal'):
                 exp.executions.append(call)
             if outcome == 'invalid':
                 kind = 'unbound'
                 resp = err(id_, -32602)
+            elif outcome == 'internal':
+                # handling failed outside the method body (the view could not be built): -32603, nothing executed
+                kind = 'internal'
+                resp = err(id_, -32603, ANY_STR, ABSENT_MEMBER)
             elif outcome == 'result':
                 kind = 'ok'
                 resp = {'jsonrpc': '2.0', 'id': id_, 'result': value}
